@@ -279,7 +279,7 @@ func report(w *World, sum *propSummary, cfg RunConfig, verif string, seed int, w
 		exit = 1
 	}
 	// evidence
-	var assumptions []string
+	assumptions := []string{}
 	for a := range sum.Assump {
 		assumptions = append(assumptions, a)
 	}
@@ -408,7 +408,7 @@ func writeReplay(w *World, o *Obligation, dir string, cfg RunConfig) (string, bo
 		o.Name, o.Kind, o.Func, o.Desc, o.Where, o.Status, o.Result.Solver, o.Result.Verdict, o.Result.Secs)
 	fmt.Fprintf(&b, "solver output:\n%s\n", truncate(o.Result.Output, 4000))
 	confirmed := false
-	if o.Result.Verdict == "sat" && o.Script != nil {
+	if o.Script != nil && o.Kind != "unsupported" {
 		ok, text := tryReplay(w, o, cfg)
 		confirmed = ok
 		b.WriteString(text)
